@@ -141,6 +141,20 @@ def checkTakeoff (segs : List SegX) (z0 : Rat) (q ans : String) : Except String 
               if e < hoverEnd - 1 / 2000 ∧ target ≠ z0 then
                 .error s!"takeoff: crossing reported at {ratToString e} s inside the initial hover (altitude {ratToString z0}) although the takeoff altitude is {ratToString target}"
               else
+              -- a segment that is level at exactly the takeoff altitude (constant, or linear with equal ends: compared
+              -- exactly) reaches it at its start: the crossing cannot be reported later than that
+              match segs.find? (fun s => s.nz ≤ 2 ∧ s.durMs > 0 ∧ s.pz.headD 0 = target ∧ (s.pz.drop 1).all (· == 0)) with
+              | some s =>
+                if s.startSec < e - 1 / 2000 then
+                  .error s!"takeoff: the segment starting at {s.startMs} ms is level at exactly the takeoff altitude {ratToString target}, but the crossing is reported later, at {ratToString e} s"
+                else
+                  (if !yieldsAltitude segs e target then .error s!"takeoff: at the reported crossing {ratToString e} s the altitude is not {ratToString target}"
+                   else
+                    match reachedBefore segs e target with
+                    | some m => .error s!"takeoff: {m}"
+                    | none => .ok [match adj with | .fin _ => "takeoff:finite" | _ => "takeoff:reached-but-climb-infinite", "takeoff:level-at-target",
+                                   "takeoff:" ++ agreesWithModel segs (some e) (earliestAbove exactTouch (segs.map (·.zs)) target)])
+              | none =>
               if !yieldsAltitude segs e target then .error s!"takeoff: at the reported crossing {ratToString e} s the altitude is not {ratToString target}"
               else
                 match reachedBefore segs e target with
@@ -148,6 +162,9 @@ def checkTakeoff (segs : List SegX) (z0 : Rat) (q ans : String) : Except String 
                 | none => .ok [match adj with | .fin _ => "takeoff:finite" | _ => "takeoff:reached-but-climb-infinite",
                                "takeoff:" ++ agreesWithModel segs (some e) (earliestAbove exactTouch (segs.map (·.zs)) target)]
             | .pinf =>
+              if segs.any (fun s => s.nz ≤ 2 ∧ s.durMs > 0 ∧ s.pz.headD 0 = target ∧ (s.pz.drop 1).all (· == 0)) then
+                .error s!"takeoff: reported 'never reached' although a segment is level at exactly the takeoff altitude {ratToString target}"
+              else
               match reachedAnywhere segs target with
               | some m => .error s!"takeoff: {m}"
               | none => .ok ["takeoff:never-reached", "takeoff:" ++ agreesWithModel segs none (earliestAbove exactTouch (segs.map (·.zs)) target)]
